@@ -456,6 +456,8 @@ func (fx *FuncCtx) fresh(t types.Type, hint string) Val {
 			fx.emit(fmt.Sprintf("(assert (<= 0 %s))", r))
 			return VMapRef{T: r, K: k, V: u.Elem(), Kind: kind}
 		}
+	case *types.Signature:
+		return VFuncParam{Nil: fx.declare(sortBool, hint+"_isnil")}
 	case *types.Tuple:
 		var out VTuple
 		for i := 0; i < u.Len(); i++ {
